@@ -638,6 +638,32 @@ impl MonDir {
     fn prologue(&self, kind: OpKind, path: &str) -> io::Result<bool> {
         let tname = cur_thread_name();
         let role = role_of(&tname);
+        let mut st = self.park_at_gates(kind, path, &tname, role);
+        // noise
+        let mut do_yield = 0u32;
+        if self.inner.cfg.noise_permille > 0 && path != ".managed.json" {
+            let mut x = st.noise_state;
+            x ^= x << 13;
+            x ^= x >> 7;
+            x ^= x << 17;
+            st.noise_state = x;
+            if (x % 1000) < self.inner.cfg.noise_permille as u64 {
+                do_yield = 1 + ((x >> 20) % 3) as u32;
+            }
+        }
+        self.prologue_faults(st, kind, path, role, do_yield)
+    }
+
+    /// Gate point reached AFTER an operation that has no prologue (a lock release): parks the
+    /// calling thread if a gate matches.
+    fn gate_point_after(&self, kind: OpKind, path: &str) {
+        let tname = cur_thread_name();
+        let role = role_of(&tname);
+        drop(self.park_at_gates(kind, path, &tname, role));
+    }
+
+    /// gates: parks the calling thread while a matching gate is closed; returns the state lock
+    fn park_at_gates<'a>(&'a self, kind: OpKind, path: &str, tname: &str, role: &str) -> std::sync::MutexGuard<'a, State> {
         let mut st = self.lock();
         // gates (never on .managed.json: it is written under ManagedDirectory's own write lock)
         if path != ".managed.json" {
@@ -649,7 +675,7 @@ impl MonDir {
                 if g.pred.matches(kind, role, path) {
                     if g.seen == g.nth {
                         g.parked = true;
-                        g.parked_event = Some((tname.clone(), kind, path.to_string()));
+                        g.parked_event = Some((tname.to_string(), kind, path.to_string()));
                         park_at = Some(i);
                         g.seen += 1;
                         break;
@@ -675,18 +701,17 @@ impl MonDir {
                 }
             }
         }
-        // noise
-        let mut do_yield = 0u32;
-        if self.inner.cfg.noise_permille > 0 && path != ".managed.json" {
-            let mut x = st.noise_state;
-            x ^= x << 13;
-            x ^= x >> 7;
-            x ^= x << 17;
-            st.noise_state = x;
-            if (x % 1000) < self.inner.cfg.noise_permille as u64 {
-                do_yield = 1 + ((x >> 20) % 3) as u32;
-            }
-        }
+        st
+    }
+
+    fn prologue_faults(
+        &self,
+        mut st: std::sync::MutexGuard<'_, State>,
+        kind: OpKind,
+        path: &str,
+        role: &str,
+        do_yield: u32,
+    ) -> io::Result<bool> {
         // faults
         let mut result: io::Result<bool> = Ok(false);
         if st.dead && kind != OpKind::LockRelease {
@@ -1063,6 +1088,9 @@ impl Drop for MonLockGuard {
         st.locks.remove(&self.path);
         MonDir::push_event(&mut st, OpKind::LockRelease, &self.path, 0, true, None, 0, "");
         self.dir.inner.cond.notify_all();
+        drop(st);
+        // a gate on a lock release parks the thread right AFTER it has released the lock
+        self.dir.gate_point_after(OpKind::LockRelease, &self.path);
     }
 }
 
